@@ -99,6 +99,10 @@ func goNameAnnotation(e compile.NamedEntity) (string, error) {
 		return "", nil
 	}
 
+	if len(name) == 0 {
+		return "", fmt.Errorf("the go.name annotation is empty")
+	}
+
 	c, _ := utf8.DecodeRuneInString(name)
 	capitalized := unicode.IsLetter(c) && unicode.IsUpper(c)
 	underscore := strings.Contains(name, "_")
